@@ -408,6 +408,7 @@ def run(ctx):
         n = max(n, 3000)
     dbsp = {db: db_species(ctx, exe, db) for db in gen.DBS}
     ctx.cov["db_surface_species"] = {db: len(v) for db, v in dbsp.items()}
+    run_corpus(ctx, exe)
     specs = [gen.gen_case(ctx.rng, i) for i in range(n)]
     texts = {s["id"]: gen.render(s, dbsp.get(s["db"])) for s in specs}
     byid = {s["id"]: s for s in specs}
@@ -495,6 +496,34 @@ def run(ctx):
         ctx.violation("proof obligation of C20 no longer checks (constants/factors extracted from the source differ from the "
                       "model's, or a theorem broke) and no failing input was found",
                       {"broken": ctx.proof_broken, "translator": ctx.cov.get("translator_surfconst")}, found_input=False)
+
+
+def run_corpus(ctx, exe):
+    """corpus/C20/*.json (db, input): fixed cases that are always run first"""
+    files = sorted((vlib.ROOT / "corpus" / "C20").glob("*.json"))
+    nrel = 0
+    for k, f in enumerate(files):
+        data = json.loads(f.read_text())
+        res = run_batch(ctx, exe, [(0, data["db"], data["input"])])
+        c = res[0]
+        if c["errors"] != 0:
+            ctx.violation(f"corpus case {f.name} no longer completes: {c['err'][:200]}", dict(data, corpus=f.name), found_input=False)
+            continue
+        rels = evaluate(ctx, res).get(0, [])
+        nrel += len([r for r in rels if r[0] != "N"])
+        vf = [r for r in rels if r[0] == "V" and not r[4]]
+        tf = [r for r in rels if r[0] == "T" and not r[4]]
+        if vf:
+            msgs = [m for m in (direct_oracle({}, c["lines"], x) for x in vf[:6]) if m]
+            ctx.violation(f"corpus case {f.name}: surface calculation completed without error but violates the property: "
+                          + (msgs[0] if msgs else vf[0][2]),
+                          dict(data, corpus=f.name, failed_relations=[dict(kind=x[2], name=x[3], block=x[1], lhs=x[5], rhs=x[6]) for x in vf[:10]]))
+        elif tf:
+            ctx.violation(f"corpus case {f.name}: model/code correspondence broken",
+                          dict(data, corpus=f.name, correspondence=[dict(kind=x[2], name=x[3], code=x[5], model=x[6]) for x in tf[:6]]),
+                          found_input=False)
+    ctx.cov["corpus_cases"] = len(files)
+    ctx.cov["corpus_relations"] = nrel
 
 
 def report_failure(ctx, exe, spec, dbsp, c, vf, tf):
